@@ -30,7 +30,10 @@ def tree_with(lay, f, got, upto=None, seen=()):
     for i, s in enumerate(body, 1):
         if upto is not None and i >= upto:
             break
-        if s["k"] == "imp" and s["pos"] != "failMsg":
+        if s["k"] == "imp" and s["pos"] == "fmtExpr":
+            g = got.get((f, i), s["tgt"])
+            kids.append(B.fmt_leaf(lay, g) if g else None)
+        elif s["k"] == "imp" and s["pos"] != "failMsg":
             g = got.get((f, i), s["tgt"])
             kids.append(tree_with(lay, g, got, None, seen + (f,)) if g and g not in seen + (f,) else None)
         elif s["k"] == "inc" and s["pos"] != "failMsg":
@@ -244,7 +247,7 @@ def main(tier, replay=None):
     cnt = {"cycle -> diagnostic": 0, "build ok": 0, "same file imported twice": 0, "import through an import": 0,
            "include": 0, "cwd p": 0, "cwd p/s": 0, "cwd elsewhere": 0, "entry in the sub-directory": 0,
            "same name in two directories": 0}
-    for pos in ("top", "nested", "funcBody", "callback", "failMsg", "moduleBody", "moduleOut"):
+    for pos in ("top", "nested", "funcBody", "callback", "failMsg", "moduleBody", "moduleOut", "fmtExpr"):
         cnt["position " + pos] = 0
     for sp in (1, 2, 3):
         cnt["spelling %d" % sp] = 0
